@@ -100,7 +100,7 @@ func genC09(seed uint64, tier string) Plan {
 	}
 	p := Plan{Prop: "C09", Seed: seed, Cfg: c, Seg: pick(g, []int{0, 0, 2})}
 	p.Conns = g.conns(p.Cfg, 3)
-	keys := keyAlphabet[:1+g.n(3)]
+	keys := g.keys(1 + g.n(3))
 	nsteps := 4 + g.n(16)
 	now := int64(946684800)
 	var opq uint32 = 100
